@@ -131,6 +131,19 @@ EXTS = r"""
         let der = p.self_signed(&key).unwrap().der().to_vec();
         for (name, oid) in all { assert_eq!(has(&der, &ext_oid(oid)), want.contains(&name), "parameters with only {}: extension {}", what, name); }
     }
+    // issuer field = the issuer's subject, also when the subject key happens to be the issuer's own key
+    {
+        let mut ip = base(); ip.distinguished_name = DistinguishedName::new(); ip.distinguished_name.push(DnType::CommonName, "the-issuer-name");
+        ip.is_ca = IsCa::Ca(BasicConstraints::Unconstrained);
+        let issuer = ip.self_signed(&ikey).unwrap();
+        let mut sp = base(); sp.distinguished_name = DistinguishedName::new(); sp.distinguished_name.push(DnType::CommonName, "another-subject");
+        for subject_key in [&key, &ikey] {
+            let cert = sp.clone().signed_by(subject_key, &issuer, &ikey).unwrap();
+            let n_iss = cert.der().windows(15).filter(|w| *w == b"the-issuer-name").count();
+            let n_sub = cert.der().windows(15).filter(|w| *w == b"another-subject").count();
+            assert_eq!((n_iss, n_sub), (1, 1), "issuer field is not the issuer's subject name");
+        }
+    }
     // AKI = the ISSUER's key identifier (its own method over the issuer SPKI), SKI = own method over the subject SPKI, all method pairs
     let methods = || vec![KeyIdMethod::Sha256, KeyIdMethod::Sha384, KeyIdMethod::Sha512, KeyIdMethod::PreSpecified(vec![0xa1, 0xa2, 0xa3])];
     let kid = |m: &KeyIdMethod, spki: &[u8]| -> Vec<u8> { match m { KeyIdMethod::PreSpecified(v) => v.clone(),
